@@ -116,7 +116,35 @@ def eval_oil(case):
     return {"violations": viol[:4], "evals": evals, "outcome": "oil", "key": ("o", T, api, g, gor)}
 
 
+def eval_history(case):
+    """The same fluid at several temperatures, interleaved, in one process: every derivative must still be the
+    exact derivative of its parent for its own arguments (nothing keyed without temperature may be reused)."""
+    from bluebonnet.fluids import oil, water  # noqa: PLC0415
+
+    api, g, gor = case["fluid"]
+    viol, n = [], 0
+    for T in case["temps"]:
+        pb = float(oil.pressure_bubblepoint_Standing(T, api, g, gor))
+        for p in case["pressures"]:
+            n += 1
+            want = derivative(lambda q: oil.solution_gor_Standing(T, q, api, g, gor), p)[1]
+            got = float(oil.dgor_dpressure_Standing(T, p, api, g, gor))
+            if not close(got, want):
+                viol.append(V("dRs/dp-after-history", f"after the same fluid was evaluated at other temperatures, "
+                              f"dgor_dpressure_Standing(T={T}, p={p}) = {got!r}; exact derivative {want!r} (p_b = {pb:.6g})",
+                              case=case, observed=got, expected=want))
+                break
+            w2 = derivative(lambda q: water.b_water_McCain(T, q), p)[1]
+            if not close(float(water.b_water_McCain_dp(T, p)), w2):
+                viol.append(V("dBw/dp-after-history", f"b_water_McCain_dp(T={T}, p={p}) differs from the exact derivative "
+                              "after other temperatures were evaluated", case=case))
+                break
+    return {"violations": viol[:2], "evals": n, "outcome": "history"}
+
+
 def evaluate(case):
+    if case["kind"] == "history":
+        return eval_history(case)
     return (eval_water if case["kind"] == "water" else eval_oil)(case)
 
 
@@ -125,7 +153,7 @@ def cases(tier, seed):
     Tw = [60.0, 100.0, 200.0, 300.0, 400.0]
     pw = [14.7, 500.0, 2000.0, 5000.0, 10000.0]
     To, apis, gs, gors = [80.0, 200.0, 350.0], [12.0, 35.0, 55.0], [0.56, 0.8, 1.3], [20.0, 650.0, 2500.0]
-    fr = [0.1, 0.5, 0.9, 1 - 1e-6, 1.0, 1 + 1e-6, 1.5]
+    fr = [0.1, 0.5, 0.9, 1 - 1e-6, 1 - 1e-10, float(np.nextafter(1.0, 0)), 1.0, 1 + 1e-6, 1.5]
     if tier == "thorough":
         Tw += [80.0, 150.0, 250.0, 350.0]
         pw += [100.0, 1000.0, 3500.0, 7500.0, 15000.0]
@@ -142,6 +170,9 @@ def cases(tier, seed):
     out = [{"kind": "water", "T": T, "p": p} for T, p in itertools.product(Tw, pw)]
     out += [{"kind": "oil", "T": T, "api": a, "g": g, "gor": r, "fractions": sorted(fr), "gors": [1.0, 20.0, 650.0, 2500.0]}
             for T, a, g, r in itertools.product(To, apis, gs, gors)]
+    for fl in ([35.0, 0.8, 650.0], [20.0, 0.65, 150.0]):
+        out.append({"kind": "history", "fluid": fl, "temps": [120.0, 300.0, 120.0, 210.0, 300.0],
+                    "pressures": [400.0, 1200.0, 2000.0, 2600.0, 3300.0, 5000.0]})
     return out
 
 
